@@ -168,7 +168,7 @@ def run_harness(prog, h, max_witnesses=60, jobs=None, keep_raw=False):
     t0 = time.time()
     jobs = jobs or int(os.environ.get("VERIF_JOBS", "16"))
     n = len(h.inputs)
-    if n < 12 or jobs <= 1 or keep_raw:
+    if n < 4 or jobs <= 1 or keep_raw:
         res = _run_inputs(prog, h, h.inputs, max_witnesses, keep_raw)
         res.wall_s = time.time() - t0
         return res
@@ -199,6 +199,22 @@ def run_harness(prog, h, max_witnesses=60, jobs=None, keep_raw=False):
     res.unsupported = res.unsupported[:8]
     res.witnesses = res.witnesses[:max_witnesses * 2]
     res.wall_s = time.time() - t0
+    return res
+
+
+def run_with_raw(prog, h, max_witnesses=12):
+    """parallel exploration first; only the input shapes that produced a violating path are explored again
+    in-process to obtain the (model, path) pairs needed to build native replays"""
+    res = run_harness(prog, h, max_witnesses=max_witnesses)
+    res.raw_witnesses = []
+    if res.witnesses:
+        labels = []
+        for w in res.witnesses:
+            if w["shape"] not in labels:
+                labels.append(w["shape"])
+        sub = [inp for inp in h.inputs if inp[0] in labels[:6]]
+        part = _run_inputs(prog, h, sub, max_witnesses, keep_raw=True)
+        res.raw_witnesses = part.raw_witnesses
     return res
 
 
